@@ -91,6 +91,8 @@ pub struct Real {
     pub file: Option<ImageSource>,
     pub handles: BTreeMap<u32, Stream<Backend>>,
     pub maxbuf: Option<usize>,
+    /// `maxbuf` came from a `create <v> <size>` line of the history
+    pub maxbuf_line: bool,
     pub backend: BackendKind,
     pub force_version: Option<u8>,
     pub clock_violation: Option<String>,
@@ -114,7 +116,7 @@ fn ok_unit(r: std::io::Result<()>) -> String {
 
 impl Real {
     pub fn new() -> Real {
-        Real { comp: None, file: None, handles: BTreeMap::new(), maxbuf: None, clock_violation: None, last_panic: None, backend: BackendKind::Mem, force_version: None }
+        Real { comp: None, file: None, handles: BTreeMap::new(), maxbuf: None, maxbuf_line: false, clock_violation: None, last_panic: None, backend: BackendKind::Mem, force_version: None }
     }
 
     pub fn image(&self) -> Vec<u8> {
@@ -138,7 +140,23 @@ impl Real {
         let t: Vec<&str> = line.split_whitespace().collect();
         let p = |s: &str| dec(s);
         match t.as_slice() {
+            ["create", v, mb] => {
+                // a history that names its stream buffer size (a variant run that set one keeps its own)
+                if self.maxbuf.is_none() || self.maxbuf_line {
+                    self.maxbuf = mb.parse().ok();
+                    self.maxbuf_line = true;
+                }
+                let keep = (self.maxbuf, self.maxbuf_line);
+                let r = self.exec_inner(&format!("create {}", v));
+                self.maxbuf = keep.0;
+                self.maxbuf_line = keep.1;
+                r
+            }
             ["create", v] => {
+                if self.maxbuf_line {
+                    self.maxbuf = None;
+                    self.maxbuf_line = false;
+                }
                 self.handles.clear();
                 self.comp = None;
                 let version = match self.force_version {
@@ -556,7 +574,7 @@ impl RefModel {
         }
         let t: Vec<&str> = line.split_whitespace().collect();
         match t.as_slice() {
-            ["create", _] => {
+            ["create", _] | ["create", _, _] => {
                 *self = RefModel::new();
                 self.live = true;
                 return Some("ok".into());
